@@ -68,7 +68,7 @@ PROPS = {
     'C10': {
         'lean': 'C10',
         'corr': [_f('comp_xfer', 'exec_corr')],
-        'oracles': [_x('C10'), _f('comp_defer', 'manager_oracle_c10')],
+        'oracles': [_x('C10'), _f('comp_defer', 'manager_oracle_c10'), _f('comp_sema', 'tsem_blocking_oracle')],
         'modelled': ['futures.BoundedExecutor (stage model)', 'wiring of TransferManager.__init__ (translator)'],
     },
     'C11': {
@@ -181,3 +181,7 @@ for _p in ('C03', 'C04', 'C05', 'C06', 'C12'):
 # the serial manager (executor_cls=NonThreadedExecutor): every fault position, ordinary exception and Ctrl-C
 for _p in ('C02', 'C03', 'C04', 'C05', 'C06', 'C08', 'C09', 'C12', 'C16'):
     PROPS[_p]['oracles'] = list(PROPS[_p]['oracles']) + [_f('comp_serial', 'oracle_' + _p)]
+
+# a non-Exception raised in the submission thread while parts are in flight (found D20)
+for _p in ('C04', 'C08'):
+    PROPS[_p]['oracles'] = list(PROPS[_p]['oracles']) + [_f('comp_explore', 'oracle_base_' + _p)]
